@@ -400,10 +400,8 @@ func runC03(c *Ctx) {
 	// `...` is matched by a three-byte comparison
 	okSpread := false
 	allInstrs(rt, func(in ssa.Instruction) {
-		if bo, ok := in.(*ssa.BinOp); ok && bo.Op == token.EQL {
-			if s, ok := constString(bo.Y); ok && s == "..." {
-				okSpread = true
-			}
+		if comparesWithConst(in, "...") {
+			okSpread = true
 		}
 	})
 	if okSpread {
@@ -596,44 +594,7 @@ func runC03(c *Ctx) {
 				if pred == nil || len(pred.Params) != 1 || len(pred.Blocks) == 0 {
 					return
 				}
-				sets := reachSets(pred, pred.Params[0], pred.Blocks[0], ivFull(0x10FFFF))
-				var stop ivset
-				decided := true
-				for b, set := range sets {
-					if ret, isRet := b.Instrs[len(b.Instrs)-1].(*ssa.Return); isRet {
-						if cst, isC := ret.Results[0].(*ssa.Const); isC && cst.Value != nil {
-							if cst.Value.String() == "true" {
-								stop = stop.union(set)
-							}
-						} else if bo, isB := ret.Results[0].(*ssa.BinOp); isB {
-							// `return r <= 0x1f && r != '\t'` compiles to a phi or a final comparison: split on it
-							if k, okK := constNum(bo.Y); okK && sameScrutinee(bo.X, pred.Params[0]) {
-								stop = stop.union(refineSet(set, bo.Op, k, true))
-							} else {
-								decided = false
-							}
-						} else if ph, isPhi := ret.Results[0].(*ssa.Phi); isPhi {
-							for i, e := range ph.Edges {
-								ps := sets[b.Preds[i]]
-								if cst, isC := e.(*ssa.Const); isC && cst.Value != nil {
-									if cst.Value.String() == "true" {
-										stop = stop.union(ps)
-									}
-								} else if bo, isB := e.(*ssa.BinOp); isB {
-									if k, okK := constNum(bo.Y); okK && sameScrutinee(bo.X, pred.Params[0]) {
-										stop = stop.union(refineSet(ps, bo.Op, k, true))
-									} else {
-										decided = false
-									}
-								} else {
-									decided = false
-								}
-							}
-						} else {
-							decided = false
-						}
-					}
-				}
+				stop, decided := predicateTrueSet(pred)
 				if decided {
 					cont := ivFull(0x10FFFF)
 					for _, x := range stop.norm() {
@@ -675,10 +636,8 @@ func runC03(c *Ctx) {
 	if rb := p.Func("lexer.(*Lexer).readBlockString"); rb != nil {
 		okEsc, okWrite := false, false
 		allInstrs(rb, func(in ssa.Instruction) {
-			if bo, ok := in.(*ssa.BinOp); ok && bo.Op == token.EQL {
-				if s, ok := constString(bo.Y); ok && s == `\"""` {
-					okEsc = true
-				}
+			if comparesWithConst(in, `\"""`) {
+				okEsc = true
 			}
 			if call, ok := in.(*ssa.Call); ok && strings.HasSuffix(calleeName(call), ".WriteString") && len(call.Call.Args) == 2 {
 				if s, ok := constString(call.Call.Args[1]); ok && s == `"""` {
@@ -706,7 +665,33 @@ func runC03(c *Ctx) {
 				}
 			}
 		})
+		var predStop ivset
+		predOK := false
 		if rv == nil {
+			allInstrs(lw, func(in ssa.Instruction) {
+				call, isCall := in.(*ssa.Call)
+				if !isCall || !strings.HasSuffix(calleeName(call), ".IndexFunc") || len(call.Call.Args) != 2 {
+					return
+				}
+				var pred *ssa.Function
+				switch x := call.Call.Args[1].(type) {
+				case *ssa.Function:
+					pred = x
+				case *ssa.MakeClosure:
+					pred = x.Fn.(*ssa.Function)
+				}
+				if st, ok := predicateTrueSet(pred); ok {
+					predStop, predOK = st, true
+				}
+			})
+		}
+		if predOK {
+			ws := ivFull(0x10FFFF)
+			for _, x := range predStop.norm() {
+				ws = ws.intersectRange(-1, x[0]-1).union(ws.intersectRange(x[1]+1, 1<<40))
+			}
+			chk(r7, "block string WhiteSpace", ws, ivPoints(0x09, 0x20), lw)
+		} else if rv == nil {
 			r7.AnchorLost("the rune variable of leadingWhitespace")
 		} else {
 			sets := reachSets(lw, rv, rv.(ssa.Instruction).Block(), ivFull(0x10FFFF))
@@ -817,18 +802,60 @@ func advanceSet(p *Program, fn *ssa.Function, lexT *types.Named, max int64) (ivs
 	found := false
 	for b, set := range sets {
 		for _, in := range b.Instrs {
-			if st, ok := in.(*ssa.Store); ok {
-				if fa, ok := st.Addr.(*ssa.FieldAddr); ok {
-					n, f, _, _ := fieldOf(fa)
-					if n != nil && sameNamed(n, lexT) && f == "end" {
-						out = out.union(set)
-						found = true
-					}
-				}
+			if advancesCursor(p, in, lexT, 0) {
+				out = out.union(set)
+				found = true
 			}
 		}
 	}
 	return out, found
+}
+
+// advancesCursor: in stores to the byte cursor, or calls a function of the module that only moves the cursors (a
+// stepping helper: straight-line code, no reads of the input).
+func advancesCursor(p *Program, in ssa.Instruction, lexT *types.Named, depth int) bool {
+	if st, ok := in.(*ssa.Store); ok {
+		if fa, ok := st.Addr.(*ssa.FieldAddr); ok {
+			n, f, _, _ := fieldOf(fa)
+			return n != nil && sameNamed(n, lexT) && f == "end"
+		}
+		return false
+	}
+	ci, ok := in.(ssa.CallInstruction)
+	if !ok || depth > 1 {
+		return false
+	}
+	g := ci.Common().StaticCallee()
+	if g == nil || !p.inModule(g) || !isStepper(p, g, lexT) {
+		return false
+	}
+	return true
+}
+
+// isStepper: a one-block function of the lexer that stores to the byte cursor and reads nothing from the input.
+func isStepper(p *Program, g *ssa.Function, lexT *types.Named) bool {
+	if len(g.Blocks) != 1 || g.Signature.Recv() == nil || !sameNamed(namedOf(g.Signature.Recv().Type()), lexT) {
+		return false
+	}
+	stores := false
+	clean := true
+	for _, in := range g.Blocks[0].Instrs {
+		switch x := in.(type) {
+		case *ssa.Store:
+			if fa, ok := x.Addr.(*ssa.FieldAddr); ok {
+				if n, f, _, _ := fieldOf(fa); n != nil && sameNamed(n, lexT) && f == "end" {
+					stores = true
+				}
+			}
+		case ssa.CallInstruction:
+			clean = false
+		default:
+			if _, _, ok := strIndex(in); ok {
+				clean = false
+			}
+		}
+	}
+	return stores && clean
 }
 
 // scrutinee: the character value fn decides on — a byte loaded from Input, or the rune returned by peek().
@@ -996,4 +1023,69 @@ func strIndex(in ssa.Instruction) (idx ssa.Value, v ssa.Value, ok bool) {
 func isByteVal(v ssa.Value) bool {
 	b, ok := v.Type().Underlying().(*types.Basic)
 	return ok && b.Kind() == types.Uint8
+}
+
+// predicateTrueSet: the set of characters for which a one-parameter predicate (a closure handed to
+// strings.IndexFunc and the like) returns true, by interval propagation over its branches.
+func predicateTrueSet(pred *ssa.Function) (stop ivset, decided bool) {
+	if pred == nil || len(pred.Params) != 1 || len(pred.Blocks) == 0 {
+		return nil, false
+	}
+	sets := reachSets(pred, pred.Params[0], pred.Blocks[0], ivFull(0x10FFFF))
+	decided = true
+	for b, set := range sets {
+		if ret, isRet := b.Instrs[len(b.Instrs)-1].(*ssa.Return); isRet {
+			if cst, isC := ret.Results[0].(*ssa.Const); isC && cst.Value != nil {
+				if cst.Value.String() == "true" {
+					stop = stop.union(set)
+				}
+			} else if bo, isB := ret.Results[0].(*ssa.BinOp); isB {
+				// `return r <= 0x1f && r != '\t'` compiles to a phi or a final comparison: split on it
+				if k, okK := constNum(bo.Y); okK && sameScrutinee(bo.X, pred.Params[0]) {
+					stop = stop.union(refineSet(set, bo.Op, k, true))
+				} else {
+					decided = false
+				}
+			} else if ph, isPhi := ret.Results[0].(*ssa.Phi); isPhi {
+				for i, e := range ph.Edges {
+					ps := sets[b.Preds[i]]
+					if cst, isC := e.(*ssa.Const); isC && cst.Value != nil {
+						if cst.Value.String() == "true" {
+							stop = stop.union(ps)
+						}
+					} else if bo, isB := e.(*ssa.BinOp); isB {
+						if k, okK := constNum(bo.Y); okK && sameScrutinee(bo.X, pred.Params[0]) {
+							stop = stop.union(refineSet(ps, bo.Op, k, true))
+						} else {
+							decided = false
+						}
+					} else {
+						decided = false
+					}
+				}
+			} else {
+				decided = false
+			}
+		}
+	}
+	return stop, decided
+}
+
+// comparesWithConst: in compares a string with the constant c — `x == c` or strings.HasPrefix(x, c).
+func comparesWithConst(in ssa.Instruction, c string) bool {
+	if bo, ok := in.(*ssa.BinOp); ok && bo.Op == token.EQL {
+		for _, o := range []ssa.Value{bo.X, bo.Y} {
+			if s, ok := constString(o); ok && s == c {
+				return true
+			}
+		}
+	}
+	if call, ok := in.(*ssa.Call); ok && len(call.Call.Args) == 2 {
+		if nm := calleeName(call); nm == "strings.HasPrefix" || nm == "bytes.HasPrefix" {
+			if s, ok := constString(call.Call.Args[1]); ok && s == c {
+				return true
+			}
+		}
+	}
+	return false
 }
